@@ -10,6 +10,21 @@ use std::io::{Read, Write};
 use std::panic::{catch_unwind, AssertUnwindSafe};
 use std::time::{Duration, SystemTime, UNIX_EPOCH};
 
+thread_local! {
+    /// fault to arm on the next medium that a session creates (Create / Reopen), before the
+    /// library issues its first call on it (used by the fault-enumeration driver)
+    pub static NEXT_FAULT: std::cell::RefCell<Option<crate::media::Fault>> = std::cell::RefCell::new(None);
+}
+fn new_medium(bytes: Vec<u8>) -> Medium {
+    let m = Medium::new(bytes);
+    NEXT_FAULT.with(|nf| {
+        if let Some(f) = *nf.borrow() {
+            m.set_fault(Some(f));
+        }
+    });
+    m
+}
+
 pub struct Session {
     pub pkg: Option<Package<Medium>>,
     pub med: Medium,
@@ -140,7 +155,7 @@ impl Session {
         match op {
             "Create" => {
                 self.pkg = None;
-                self.med = Medium::new(Vec::new());
+                self.med = new_medium(Vec::new());
                 let p = Package::create(ptype_of(a["ptype"].as_str().unwrap_or("Installer")), self.med.handle())?;
                 self.pkg = Some(p);
                 Ok(())
@@ -259,7 +274,7 @@ impl Session {
             "Reopen" => {
                 let bytes = self.med.snap();
                 self.pkg = None;
-                self.med = Medium::new(bytes);
+                self.med = new_medium(bytes);
                 self.pkg = Some(Package::open(self.med.handle())?);
                 Ok(())
             }
